@@ -38,11 +38,16 @@ type vInv struct {
 	fail  bool
 }
 
-//verif:harness prop=C14 quick=4 thorough=8 merge=none models=scan,term,hash,payload timeout=1500
-//verif:bounds protocol layer through the real `gts delete`: histories of 2 invocations over one cache directory; each invocation = (input record of 4 symbolic residues, same as or different from the first; locator `2` or `3`; input well-formed or malformed after its first record); real ioDelegate/TryCache/cache.File/writer; compared with the same invocation under --no-cache
+//verif:harness prop=C14 quick=5 thorough=9 merge=none models=scan,term,hash,payload timeout=1500
+//verif:bounds protocol layer through the real `gts delete`: histories of 2 invocations over one cache directory; each invocation = (input record of 4 symbolic residues, same as or different from the first; locator `2` or `3`; input well-formed or malformed after its first record; one shard: first invocation with -o x.fasta, second to stdout); real ioDelegate/TryCache/cache.File/writer; compared with the same invocation under --no-cache
 //verif:assume scanner = queue of the records (fails after them when the input is malformed), in-memory file system, identity flate, uninterpreted digests without collisions between the inputs compared, payload encoding injective
 func VH_C14_history() {
-	sh := vShard(4 + 4*vTier())
+	sh := vShard(5 + 4*vTier())
+	toFile := false
+	if sh == 4+4*vTier() {
+		// the first invocation writes FASTA to a file chosen with -o; the second prints to stdout
+		toFile, sh = true, 0
+	}
 	recA, dataA := vPlainRecord("a", 4)
 	recB, dataB := vPlainRecord("b", 4)
 	vAssume(!vSameB(dataA, dataB))
@@ -60,8 +65,13 @@ func VH_C14_history() {
 	// shard: (second input same/different) x (second locator same/different); thorough adds failing first/second runs
 	h := []vInv{mk(0, 0, sh >= 4 && sh%2 == 0), mk(sh%2, (sh/2)%2, sh >= 6)}
 	home := "/cache-home"
+	outdir := "/out"
 	if !vIsModel() {
 		home = vTempDir()
+		outdir = vTempDir()
+	}
+	if toFile {
+		h[0].args = append([]string{"-o", outdir + "/x.fasta"}, h[0].args...)
 	}
 	var baseOut [][]byte
 	var baseOK []bool
